@@ -153,8 +153,20 @@ fn fails_same(case: &Case, sched: &[u32], io: &[u32], target: &Violation) -> Opt
     if out.harness_error.is_some() {
         return None;
     }
-    let v = out.violations.iter().find(|v| same_class(v, target)).cloned()?;
+    // same class, and the same standing with respect to the known findings: minimising a new violation must not
+    // drift into a history that only shows an already known one
+    let known = KNOWN.with(|k| k.borrow().clone_light());
+    let target_known = known.matches(target).map(|f| f.id.clone());
+    let v = out
+        .violations
+        .iter()
+        .find(|v| same_class(v, target) && known.matches(v).map(|f| f.id.clone()) == target_known)
+        .cloned()?;
     Some((out, v))
+}
+
+thread_local! {
+    static KNOWN: std::cell::RefCell<KnownFindings> = std::cell::RefCell::new(load_known());
 }
 
 /// Delta-debugging style minimisation on the explicit case and the recorded streams.
